@@ -144,8 +144,8 @@ func genC24(rng *rand.Rand, tier string, w *bufio.Writer) {
 	}
 	// a few large inputs (window / block-size / memory-limit boundaries of the libraries)
 	for _, a := range c24Algs {
-		for _, sz := range []int{70 << 10, 2 << 20} {
-			if tier != "thorough" && sz > 1<<20 && a != "zstd" && a != "snappy" {
+		for _, sz := range []int{70 << 10, 1<<20 + 4096} {
+			if tier != "thorough" && sz > 1<<20 && a != "zstd" {
 				continue
 			}
 			b := make([]byte, sz)
@@ -283,7 +283,7 @@ func runC24(in *bufio.Scanner, w *bufio.Writer) {
 					wg.Add(1)
 					go func(p []byte) {
 						defer wg.Done()
-						for k := 0; k < 12; k++ {
+						for k := 0; k < 4; k++ {
 							c, err := cp.Compress(p)
 							if err != nil {
 								bad.Store(1)
